@@ -103,3 +103,50 @@ class C04d(Obligation):
 def obligations(ctx, cfg):
     n = 3 if cfg['tier'] == 'quick' else 5
     return [C04a(ctx), C04d(ctx, n), StepPull(ctx, 2, 3, 0, 'deadline', 'C04.b'), StepExpire(ctx, n, 2, 0, 'deadline', 'C04.e')]
+
+
+from props.service import *
+
+
+class C04c(Obligation):
+    id = 'C04.c'
+    tier = 'T2'
+    desc = 'CreateSubscription handler: the ack deadline handed to SubscriptionInfo::new is 10 s for every ack_deadline_seconds <= 10 (incl. negative) and the requested value otherwise (all i32)'
+    bounds = {'ack_deadline_seconds': 'all i32'}
+
+    def body(self, ip, p):
+        ctx = ip.ctx
+        install_tokens(ctx)
+        h = sym_managers(ctx, p)
+        abstract_name_parsers(ip, p)
+        ads = p.fresh('ack_deadline_seconds')
+        p.assume(z3.And(ads >= -(1 << 31), ads < (1 << 31)))
+        req = request(proto(ctx, 'Subscription', name=StrTok(p.fresh('name')), topic=StrTok(p.fresh('topic')),
+                            push_config=Enum('Option', 0, {}), ack_deadline_seconds=S(ads, 'i32')))
+        seen = observe(ip, r'SubscriptionInfo::new$')
+        fut = start_handler(ip, p, 'subscriber', 'create_subscription', h['subscriber'], req)
+        try:
+            res, k = run_async(ip, p, fut, budget=0)
+            return ads, None, res
+        except StopExec as e:
+            return ads, e.data, None
+
+    def post(self, ip, p, res):
+        ads, args, out = res
+        if args is None:
+            # rejected before SubscriptionInfo::new (a name did not parse)
+            return [Claim('early return is an error', out.discr == 1), Cover('name rejected')]
+        dur = args[1]
+        return [Claim('effective ack deadline == max(10, requested) s', dur.t == z3.If(ads <= 10, 10, ads) * NS),
+                Cover('negative', ads < 0), Cover('exactly 10', ads == 10), Cover('11', ads == 11), Cover('i32::MAX', ads == (1 << 31) - 1),
+                Cover('i32::MIN', ads == -(1 << 31))]
+
+    def model_info(self, p, m, res):
+        return {'ack_deadline_seconds': model_value(m, res[0])} if res else {}
+
+
+_old_obligations = obligations
+
+
+def obligations(ctx, cfg):
+    return _old_obligations(ctx, cfg) + [C04c()]
